@@ -115,6 +115,22 @@ def build(cfg, values=None):
             for a in range(len(cu)):
                 if cu[a] is not cu0[a]:
                     obs.append(('caller-cu-unchanged[%d]' % a, Sym.lift(1), Sym.lift(0)))
+            # a FULL-size vector (what calc_full_c itself returned, or an eigenvector): prescribed amplitudes scaled by the load
+            # factor, the rest untouched, the caller's array not modified, and the same answer when asked again
+            cf = np.zeros(size, dtype=object)
+            for i in range(size):
+                cf[i] = V('cf%d' % i)
+            cf0 = cf.copy()
+            for rep in (1, 2):
+                again = cc.calc_full_c(cf, inc=inc)
+                if len(again) != size:
+                    obs.append(('full-c-of-full-vector-length', Sym.lift(len(again)), Sym.lift(size)))
+                    break
+                for i in range(size):
+                    obs.append(('full-c-of-full-vector-call%d[%d]' % (rep, i), again[i], inc * cf0[i] if i in ex else cf0[i]))
+            for i in range(size):
+                if cf[i] is not cf0[i]:
+                    obs.append(('caller-full-vector-unchanged[%d]' % i, Sym.lift(1), Sym.lift(0)))
         elif variant == 'fext':
             cc.r2, cc.L = V('r2'), V('L')
             cc.alphadeg = V('alphadeg')
